@@ -26,6 +26,9 @@ func subst(t *T, h []*T) *T {
 	if t.K == 'y' && len(t.S) == 2 && t.S[0] == '$' {
 		return h[int(t.S[1]-'1')]
 	}
+	if t.K == 'y' && t.S == "#" { // a unique integer, numbered in text order by gen.Renumber
+		return Int(gen.TID)
+	}
 	if len(t.L) == 0 {
 		return t
 	}
